@@ -65,10 +65,10 @@ CLAIMED = {
    note="XLA thread configuration and platform are held fixed (same machine). One plan per routine and configuration; seeds are sampled.",
    technique="deterministic simulation twin runs under perturbation of hash seed, global RNG state and clock"),
 
- "C03": dict(level="fault_enumeration", engine="TrainSim twin runs", design="§4 C03",
-   text="NARROW SLICE decided by fault injection inside simulated training: (a) overwriting the successor observation of every stored terminated transition with another finite stored observation must leave the complete training trace (all logged losses, all actions, final hashes of all modules and optimisers) bit-identical for DQN, Nature-DQN, DDQN, PER-DDQN, DDPG, TD3, TD3+LAP, SAC; (b) permuting the rows of one returned batch must leave that update's logged loss and q mean unchanged to 1e-5 for the losses whose target is a function of the row alone; a control fault on non-terminated rows must change the trace.",
-   note="NOT decided: equality of loss values/auxiliaries with the documented regression, choice of bootstrap, zero gradient into targets, batch size 1, representation-loss values (pure per-call clauses). TD7/MR.Q excluded (their representation losses legitimately read the successor).",
-   technique="deterministic simulation twin runs with storage-corruption and batch-reordering faults in the replay-buffer seam"),
+ "C03": dict(level="fault_enumeration", engine="TrainSim twin runs + update refinement", design="§4 C03, §9.2",
+   text="Decided inside simulated training. (1) Fault injection with twin runs: (a) overwriting the successor observation of every stored terminated transition with another finite stored observation must leave the complete training trace (all logged losses, all actions, final hashes of all modules and optimisers) bit-identical for DQN, Nature-DQN, DDQN, PER-DDQN, DDPG, TD3, TD3+LAP, SAC; (b) permuting the rows of one returned batch must leave that update's logged loss and q mean unchanged to 1e-5 for the losses whose target is a function of the row alone; a control fault on non-terminated rows must change the trace. (2) Refinement: in simulated runs of DQN, Nature-DQN, DDQN, PER-DDQN, DDPG, TD3, TD3+LAP, TD7 and MR.Q every update's logged loss, q mean, mean / per-sample |TD| (and TD7's SALE loss and tracked value range) must equal a float64 reference of the documented regression onto y = r + (1-terminated)*gamma*bootstrap (max / double-Q selection / clipped double-Q minimum / TD7 value clipping / MR.Q n-step return with residual discount and reward scales) computed from a copy of the sampled batch and clones of the networks as they were at that instant of the history.",
+   note="Value equality is decided on the states the simulated histories reach, not for all inputs. NOT decided: SAC's loss value (its bootstrap draws an action from an unobservable key), MR.Q's encoder loss value, gradients w.r.t. online parameters (e.g. a moved stop_gradient with identical loss values), batch size 1.",
+   technique="deterministic simulation: twin runs with storage-corruption and batch-reordering faults in the replay-buffer seam; per-update refinement of the recorded training history against a float64 reference model"),
  "C07": dict(level="fault_enumeration", engine="TrainSim twin runs", design="§4 C07",
    text="NARROW SLICE decided by fault injection inside simulated MR.Q training: rewriting, in the batch returned by one sample_batch call, every field after the first terminated step of each sampled sub-trajectory (rewards, actions, observations, successors, later flags) must leave the complete training trace (critic target/loss, encoder / dynamics / reward / done losses, priorities through later sampling, final hashes) bit-identical to the clean twin. Plus (C07.c) real A2C collection and batch preparation on 2-3 scripted environments executed twice with ONE environment's reward script rewritten: advantages and returns of the other environments must be bit-identical.",
    note="NOT decided: GAE / reward-to-go / n-step recurrences against float64 references (pure per-call clauses); PPO's batched GAE is inside the jitted update and not observable per environment.",
